@@ -503,7 +503,10 @@ pub fn scenario_runs(k: u64, verif_seed: u64) -> Vec<RunSpec> {
                         plain_build(p, if i % 2 == 1 { vec![Setter::Capture] } else { vec![] })
                     })
                     .collect();
-                runs.push(spec(clients, &mut rng, vec!["*".into()], "round-robin"));
+                // switch points only around the elimination phase, so that the (bounded) budget of in-build
+                // switches is spent where the large intermediate structures are alive
+                let late: Vec<String> = ["regexp.after_dfa", "expr.eliminate", "regexp.after_expr", "dfa.before_recreate"].iter().map(|x| x.to_string()).collect();
+                runs.push(spec(clients, &mut rng, late, "round-robin"));
             }
             runs
         }
